@@ -280,6 +280,8 @@ class CallMixin:
 
     def call_bound(self, s, bm: BoundMethod, args, kwargs, node):
         recv = bm.recv
+        if recv.is_py and (type(recv.t), bm.name) in self.py_method_models:
+            return self.py_method_models[(type(recv.t), bm.name)](self, s, bm, args, kwargs, node)
         if bm.func is not None:
             return self.call_function(s, bm.func, [recv] + args, kwargs, node)
         if recv.ty.kind in ("ref", "data", "abs", "enum"):
@@ -532,10 +534,17 @@ class CallMixin:
         return fnode, module, tys, ret
 
     def apply_contract(self, s, c, func, args, kwargs, node):
-        if self.binder_depth > 0:
-            raise Unsupported(f"contract of {c.qualname} applied under a quantifier/comprehension binder: mark it inline or use a spec function")
         fnode, module, tys, ret = self.contract_param_types(c, func)
         env = self.bind_args(fnode, func, args, kwargs, s)
+        if self.binder_depth > 0:
+            if c.pure and c.result_name is not None and c.pre is None and not c.raises and not c.raises_iff:
+                # a pure function whose result is named by a ghost term: usable under binders as that term
+                for p, v in list(env.items()):
+                    if tys.get(p) is not None and tys[p].kind != "py":
+                        env[p] = self.coerce(v, tys[p])
+                named = self.eval_spec_fn(s, c.result_name, env)
+                return [(s, self.coerce(named, ret) if ret is not None and ret.kind != "py" else named)]
+            raise Unsupported(f"contract of {c.qualname} applied under a quantifier/comprehension binder: mark it inline or use a spec function")
         for p, v in list(env.items()):
             if tys.get(p) is not None and tys[p].kind != "py":
                 env[p] = self.coerce(v, tys[p])
